@@ -14,6 +14,11 @@ Case kinds
            D: the outcome is a tree or `oal.ParseException`, within a time budget linear in the length
   time   adversarial families (open comment + newlines / stars, quotes, digits, ...) of growing length
            D: as `total`
+  tight  every ordered pair of representative lexical units (all token classes, all fixed-string tokens, NS::)
+         written without a separator; the Lean driver decides `tightOk u v` (Proofs/OalTight.lean proves: then the
+         lexer model returns exactly the units' tokens).  Counted: accepted pairs the real lexer agrees on,
+         accepted pairs it splits differently (must be 0, fails K), refused pairs it would still split
+         correctly (completeness of the sufficient test), refused pairs that really merge.
   K (all kinds, texts the UTF-8 pipe can carry): the token stream of the real PLY lexer on text+'\\n' - kind,
      lexeme, lexpos, endlexpos, lineno, endlineno - equals the Lean lexer model's; and for every checked node's
      (first, last) token pair, `find_column`/slice arithmetic of the implementation on ITS tokens equals the
@@ -21,7 +26,7 @@ Case kinds
 """
 import time
 
-from sexp import Sym, dumps
+from sexp import Sym, dumps, loads
 import gen_oal_text as G
 
 PROP = 'C13'
@@ -89,9 +94,30 @@ def _time_cases(ctx):
             yield {'kind': 'time', 'family': name, 'n': n, 'text': text}
 
 
+def _tight_cases(ctx):
+    """every ordered pair of representative lexical units written WITHOUT a separator; the Lean driver says whether
+    `tightOk u v` holds (then layout_irrelevant_tight promises the two units' tokens) and what the tokens are"""
+    lean = getattr(ctx, 'lean', None)
+    if lean is None or lean.driver is None:
+        return
+    units = G.sample_units()
+    pairs = [[u, v] for u in units for v in units]
+    for k in range(0, len(pairs), 120):
+        chunk = pairs[k:k + 120]
+        ans = loads(lean.run_driver([dumps([Sym('c13-tight')] + chunk)])[0])
+        items = []
+        for (u, v), a in zip(chunk, ans):
+            if not isinstance(a, list):
+                raise ValueError('driver could not decode the unit pair %r' % ((u, v),))
+            items.append([str(a[0]) == 'T', a[1], a[2], [[str(t[0]), t[1]] for t in a[3]], dumps(u), dumps(v)])
+        yield {'kind': 'tight', 'pairs': items, 'text': '\n'.join(i[1] + i[2] for i in items)}
+
+
 def generate(ctx):
     # time families first: a super-linear rule shows up on them at once (and would slow every later case)
     for c in _time_cases(ctx):
+        yield c
+    for c in _tight_cases(ctx):
         yield c
     rng = ctx.rng.fork('pos')
     n_pos = ctx.pick(2600, 40000)
@@ -192,6 +218,7 @@ def _impl_obs(case, lexdata):
 def run_impl(case):
     text = case['text']
     fails = []
+    unsound = None
     stats = {'kind_' + case['kind']: 1}
     out, root, secs = _parse(text)
     lim = budget_s(len(text))
@@ -240,6 +267,21 @@ def run_impl(case):
     elif case['kind'] == 'total':
         stats['stream_' + case['stream']] = 1
         nontrivial = len(text) > 0
+    elif case['kind'] == 'tight':
+        nontrivial = True
+        for tight, tu, tv, toks, su, sv in case['pairs']:
+            got = [[t[0], t[1]] for t in G.ply_tokens(tu + tv + '\n')]
+            same = got == toks
+            if tight and same:
+                stats['tight_ok_and_lexer_agrees'] = stats.get('tight_ok_and_lexer_agrees', 0) + 1
+            elif tight:
+                # contradicts layout_irrelevant_tight + the token-stream correspondence: reported through K below
+                stats['tight_ok_but_lexer_differs'] = stats.get('tight_ok_but_lexer_differs', 0) + 1
+                unsound = '%s %s' % (su, sv)
+            elif same:
+                stats['tight_refused_but_lexer_agrees'] = stats.get('tight_refused_but_lexer_agrees', 0) + 1
+            else:
+                stats['tight_refused_and_lexer_merges'] = stats.get('tight_refused_and_lexer_merges', 0) + 1
     else:
         stats['family_' + case['family']] = 1
         nontrivial = True
@@ -251,6 +293,10 @@ def run_impl(case):
             fails.append({'sig': 'lexer-exception:%s' % type(e).__name__,
                           'what': 'the lexer raised %s: %s on %r' % (type(e).__name__, str(e)[:100], short)})
             obs = 'lexer-exception'
+    if unsound is not None:
+        # a pair the proved theorem accepts but the real lexer splits differently: the lexer model (or the
+        # well-formedness of the generated lexeme) is wrong - make the correspondence fail on this case
+        obs = ['tight-unsound', unsound, obs]
     return {'obs': obs, 'd_fail': fails[:4], 'nontrivial': nontrivial, 'key': text, 'stats': stats}
 
 
